@@ -322,6 +322,9 @@ def sampling(tier, rng, rep):
         F = spec.J(m)
         X = rng.normal(size=shape + (1, m)) * 0.4
         X[..., 0, 0] = 1.5 + rng.uniform(0, 1, size=shape)
+        # precondition of find_isometry at its call sites: the given row is timelike (a 4-sigma normal draw is not)
+        spn = np.linalg.norm(X[..., 0, 1:], axis=-1)
+        X[..., 0, 1:] *= np.minimum(1.0, 0.8 * X[..., 0, 0] / np.maximum(spn, 1e-300))[..., None]
         inp = {"X": X.tolist()}
         M = rep.attempt("find_isometry_runs", inp, lambda: utils.find_isometry(F, X.copy(), True))
         if M is not None:
